@@ -1,6 +1,6 @@
 /-
 The declared leaves of the translation of the CONSTRUCTORS and of the circuit registry
-(`tools/py2lean_ctor.py` → `Gen/TranslatedCtor.lean`):
+(`tools/py2lean_blkctor.py` → `Gen/TranslatedBlkCtor.lean`):
 
     block.check_name, Block.__init__, Block.has_method, ExtEvent.__init__, Const.__new__ / __init__,
     SBlock.__init__, CBlock.__init__, Circuit.__init__, Circuit.is_current_task, reset_circuit, get_circuit
@@ -23,7 +23,7 @@ Declared here is only what a LEAF means:
 -/
 import EdzedModel.Basic.Val
 
-namespace Edzed.CtorPy
+namespace Edzed.BlkCtorPy
 
 /-- the class name of a raised exception -/
 abbrev PyExc := String
@@ -203,4 +203,4 @@ def argIsInstance {σ O X T A : Type} (P : CPrims σ O X T A) (s : σ) (a : Arg 
   | .obj o => P.isInstance s o k
   | .val _ => false
 
-end Edzed.CtorPy
+end Edzed.BlkCtorPy
